@@ -4,7 +4,11 @@ use crate::error::{RecvError, TryRecvError, TrySendError};
 use core::task::{Context, Poll};
 use std::fmt;
 use std::mem::MaybeUninit;
+#[cfg(not(excsn_fibre_verif))]
 use std::sync::atomic::{AtomicBool, AtomicUsize, Ordering};
+#[cfg(excsn_fibre_verif)]
+use crate::internal::sync::{AtomicBool, AtomicUsize, Mutex, Ordering};
+#[cfg(not(excsn_fibre_verif))]
 use parking_lot::Mutex;
 
 // State constants for OneShotShared::state
